@@ -191,17 +191,73 @@ def _rand_case(rng, i):
     return {"cls": "random", "goal": goal, "states": states, "trajs": trajs, "src": "random"}
 
 
+_VIAS = ("goal", "problem", "set")
+
+
+def _rotq(q, x, y):
+    for _ in range(q % 4):
+        x, y = -y, x
+    return x, y
+
+
+def _move_state(s, mv):
+    """Input generation for random moved cases: the probe state carried along with the lattice motion (p -> R^q(p + t),
+    heading + 6q grid steps).  Produces inputs only; expected verdicts come from Goal.tla!MovedReached."""
+    q = mv["q"] % 4
+    r = dict(s)
+    r["p"] = list(_rotq(q, s["p"][0] + mv["t"][0], s["p"][1] + mv["t"][1]))
+    if s["kind"] == "pm":
+        r["vx"], r["vy"] = _rotq(q, s["vx"], s["vy"])
+    elif not s["thint"]:
+        th = s["th"] + 6 * q
+        r["th"] = th - 24 if th > 24 else th
+    return r
+
+
+def _expand_moved(c, n):
+    """One TLC 'moved goal' case -> one executable case per motion x {cold, warm}; the route cycles through
+    GoalRegion / PlanningProblem / PlanningProblemSet.translate_rotate."""
+    out = []
+    for k, mv in enumerate(c["moves"]):
+        for warm in (0, 1):
+            out.append({"cls": c["cls"], "goal": c["goal"], "states": c["states"] if warm else [], "trajs": [],
+                        "mv": mv, "warm": warm, "via": _VIAS[(n + k + warm) % 3], "mstates": c["mstates"][k],
+                        "mtrajs": c["mtrajs"][k], "src": "tlc"})
+    return out
+
+
 def cases(ctx):
-    cs = ctx.gen("MC_Goal", "GEN_Goal_t.cfg" if ctx.thorough else "GEN_Goal.cfg")
-    bands = 0
-    for c in cs:
+    raw = ctx.gen("MC_Goal", "GEN_Goal_t.cfg" if ctx.thorough else "GEN_Goal.cfg")
+    bands, mbands, cs = 0, 0, []
+    for n, c in enumerate(raw):
         c["src"] = "tlc"
-        bands += c.pop("bands", 0)            # evidence only; never reaches execute()
-    ctx.extra["either_band"] = {"tlc_probe_states": sum(len(c["states"]) for c in cs), "expected_EITHER": bands,
-                                "note": "declared in Goal.tla!SatAngle: orientation on an interval end point after a "
-                                        "non-zero number of full turns / of an interval the constructor moved by 2pi"}
+        b = c.pop("bands", 0)                 # evidence only; never reaches execute()
+        if c.get("moves"):
+            mbands += b
+            cs.extend(_expand_moved(c, n))
+        else:
+            bands += b
+            for k in ("moves", "mstates", "mtrajs"):
+                c.pop(k, None)
+            cs.append(c)
+    ctx.extra["either_band"] = {"tlc_probe_states": sum(len(c["states"]) for c in cs if "mv" not in c),
+                                "expected_EITHER": bands,
+                                "moved_probe_states": sum(len(c["mstates"]) for c in cs if "mv" in c) // 2,
+                                "moved_expected_EITHER": mbands,
+                                "note": "declared in Goal.tla: orientation on an interval end point after a non-zero "
+                                        "number of full turns / of an interval the constructor moved by 2pi; for goals "
+                                        "turned by a quarter turn: pure boundary contact and interval end points"}
+    rng = ctx.rng
     for i in range(4000 if ctx.thorough else 400):
-        cs.append(_rand_case(ctx.rng, i))
+        c = _rand_case(rng, i)
+        if i % 2:                             # every second random case also moves its goal
+            mv = {"t": [rng.randint(-10, 10), rng.randint(-10, 10)], "q": rng.randint(0, 3)}
+            c.update(mv=mv, warm=rng.randint(0, 1), via=rng.choice(_VIAS),
+                     mstates=[_move_state(s, mv) for s in c["states"]] + c["states"][:8],
+                     mtrajs=[[_move_state(s, mv) for s in tr] for tr in c["trajs"]])
+            if not c["warm"]:
+                c["states"], c["trajs"] = [], []
+        cs.append(c)
     for i, c in enumerate(cs):
         c["gclass"] = "custom" if i % 2 else "ks"           # goal states as CustomState / KSState
     return cs
@@ -212,55 +268,92 @@ def nontrivial(case):
     if not attrs:
         return None
     import json
-    return json.dumps(case["goal"], sort_keys=True)
+    return json.dumps([case["goal"], case.get("mv"), case.get("warm")], sort_keys=True)
 
 
 def _exc(ex):
     return "exc:" + type(ex).__name__
 
 
-def execute(case):
-    use_repo()
+def _ask(region, s):
     import numpy as np
     from crv import gamma
+    try:
+        r = region.is_reached(gamma.query_state(s))
+        if isinstance(r, (bool, np.bool_)):
+            return "T" if r else "F"
+        return "exc:ReturnType_" + type(r).__name__
+    except Exception as ex:
+        return _exc(ex)
+
+
+def _ask_traj(problem, tr):
+    from crv import gamma
     from commonroad.scenario.trajectory import Trajectory
+    try:
+        traj = Trajectory(tr[0]["t"], [gamma.query_state(s) for s in tr])
+    except Exception as ex:
+        from crv.tlc import MachineryError
+        raise MachineryError("driver could not build trajectory %r: %r" % (tr, ex))
+    try:
+        ok, i = problem.goal_reached(traj)
+        return ("T" if ok else "F"), int(i)
+    except Exception as ex:
+        return _exc(ex), -1
+
+
+def execute(case):
+    use_repo()
+    import math
+    import numpy as np
+    from crv import gamma
     goal = case["goal"]
+    head, lc, attrs = _goal_tags(goal)
     ev = []
     try:
         region = gamma.goal_region(goal, case.get("gclass", "ks"))
         problem = gamma.planning_problem(region)
     except Exception as ex:              # admissible goal that cannot even be built: reported as a failed check
-        head, lc, _ = _goal_tags(goal)
-        return {"ev": [{"op": "is_reached", "goal": goal, "state": case["states"][0], "res": _exc(ex),
+        st = (case["states"] or case.get("mstates"))[0]
+        return {"ev": [{"op": "is_reached", "goal": goal, "state": st, "res": _exc(ex),
                         "sig": "construct/" + head + ("/" + lc if lc else "")}]}
     for s in case["states"]:
-        try:
-            r = region.is_reached(gamma.query_state(s))
-            if isinstance(r, (bool, np.bool_)):
-                res = "T" if r else "F"
-            else:
-                res = "exc:ReturnType_" + type(r).__name__
-        except Exception as ex:
-            res = _exc(ex)
+        res = _ask(region, s)
         ev.append({"op": "is_reached", "goal": goal, "state": s, "res": res, "sig": _sig("is_reached", goal, s, res)})
     for tr in case.get("trajs", []):
-        idx = -1
-        try:
-            traj = Trajectory(tr[0]["t"], [gamma.query_state(s) for s in tr])
-        except Exception as ex:
-            from crv.tlc import MachineryError
-            raise MachineryError("driver could not build trajectory %r: %r" % (tr, ex))
-        try:
-            ok, i = problem.goal_reached(traj)
-            res = "T" if ok else "F"
-            idx = int(i)
-        except Exception as ex:
-            res = _exc(ex)
+        res, idx = _ask_traj(problem, tr)
         # signature: the goal shape plus the state kind of the trajectory (per-state tags would multiply sigs)
-        head, lc, attrs = _goal_tags(goal)
         ev.append({"op": "goal_reached", "goal": goal, "traj": tr, "res": res, "idx": idx,
                    "sig": "goal_reached/" + head + ("/" + lc if lc and res not in ("T", "F") else "") + "/" +
                           tr[0]["kind"]})
+    if "mv" not in case:
+        return {"ev": ev}
+    # ---- moved goal: (optionally queried above = warm) -> translate_rotate through one of three routes -> query again
+    mv, via, warm = case["mv"], case["via"], case["warm"]
+    base = {"goal": goal, "mv": mv, "via": via, "warm": warm}
+    tag = "/moved/" + ("warm" if warm else "cold")
+    t = np.array([mv["t"][0] / 2.0, mv["t"][1] / 2.0])
+    angle = (mv["q"] % 4) * math.pi / 2
+    try:
+        if via == "goal":
+            region.translate_rotate(t, angle)
+        elif via == "problem":
+            problem.translate_rotate(t, angle)
+        else:
+            from commonroad.planning.planning_problem import PlanningProblemSet
+            PlanningProblemSet([problem]).translate_rotate(t, angle)
+    except Exception as ex:
+        ev.append(dict(base, op="moved_is_reached", state=case["mstates"][0], res=_exc(ex),
+                       sig="translate_rotate/" + head + ("/" + lc if lc else "") + tag))
+        return {"ev": ev}
+    for s in case["mstates"]:
+        res = _ask(problem.goal, s)
+        ev.append(dict(base, op="moved_is_reached", state=s, res=res,
+                       sig="is_reached/" + head + ("/" + lc if lc and res not in ("T", "F") else "") + tag))
+    for tr in case.get("mtrajs", []):
+        res, idx = _ask_traj(problem, tr)
+        ev.append(dict(base, op="moved_goal_reached", traj=tr, res=res, idx=idx,
+                       sig="goal_reached/" + head + ("/" + lc if lc and res not in ("T", "F") else "") + tag))
     return {"ev": ev}
 
 
